@@ -221,7 +221,9 @@ inductive Why where
   | floatBits
   /-- DS / FLAT / SMEM: addressing and memory effects, no lane body of the shape treated here -/
   | memory
-  /-- not translated (inner bit loop, `sort.Ints`, cross-lane `v_readfirstlane_b32`) -/
+  /-- no translated lane body: the cross-lane `v_readfirstlane_b32` (hand-transcribed by C06; its lane selection is
+      proved equal to the specification's, `readfirstlane_lane_conforms`; the value path stays differential).  Until
+      `translate/lanedeep.go` also the inner bit loops, `sort.Ints` and the constant-mask handler — now proved -/
   | untranslated
   /-- the Go switch accepts an opcode the ISA table of that architecture does not have (GCN3 VOP2 52–54) -/
   | noSpec
